@@ -643,6 +643,13 @@ func (g *Graph) factsLattice() Lattice[Facts] {
 						switch x := rhs.(type) {
 						case *ast.CallExpr:
 							addMake(lhs, x)
+							if hi, lo, ok := g.P.resultLenOf(info, x, 0); ok && !mentions(normStr(info, hi), lhsStr) {
+								if lo == 0 {
+									n.setRel(token.EQL, &ast.CallExpr{Fun: ast.NewIdent("len"), Args: []ast.Expr{lhs}}, hi, true)
+								} else {
+									n.setRel(token.EQL, &ast.CallExpr{Fun: ast.NewIdent("len"), Args: []ast.Expr{lhs}}, &ast.BinaryExpr{X: hi, Op: token.SUB, Y: &ast.BasicLit{Kind: token.INT, Value: fmtInt(lo)}}, true)
+								}
+							}
 							if calleeName(info, x) == "sort.Search" && len(x.Args) == 2 {
 								// 0 <= result <= n
 								n.setRel(token.LSS, lhs, &ast.BasicLit{Kind: token.INT, Value: "0"}, false)
